@@ -149,6 +149,15 @@ def run_config(ctx, rnd, tag, cfg, M0, mf, cases, nev, tree=None):
     config2 = ConfigLoader(c2); amp2 = config2.get_amplitude(); amp2.set_params(pars)
     data2 = config2.data.cal_angle(p4); data2["weight"] = w
     extra[("tf_function+no_id_cached", nev)] = {kk: float(v) for kk, v in fit_fractions(amp2, data2, batch=nev)[0].items()}
+    # history: a sub-selection is ACTIVE when the fractions of the full model are requested (res=None): they refer to all chains
+    # (and the selection is restored afterwards: C17)
+    if nch >= 2:
+        sel = [names[0]]
+        with amp.temp_used_res(sel):
+            extra[("selection_active", nev)] = {kk: float(v) for kk, v in fit_fractions(amp, data, batch=nev)[0].items()}
+            extra[("selection_active_new", max(1, nev - 1))] = {kk: float(v) for kk, v in
+                                                                 fit_fractions(amp, data, batch=max(1, nev - 1), method="new", res=list(amp.res)).get_frac_grad(sum_diag=False)[0].items()}
+        ctx.count("ff_with_selection_active")
     for (how, b), vals in extra.items():
         ffs[(how, b)] = vals
     for b in list(ffs):
